@@ -31,6 +31,7 @@ type Result struct {
 	Sites      []Site
 	NS, NF, NO int
 	NLock      int
+	NoEntry    int // functions left without an entry site because their call count is order dependent
 	NChan      int // channel operations and Cond waits turned into polling loops
 	// Unmodelled: places where a goroutine can park in a way the one-runner scheduler cannot take
 	// over (select without default, receive with a value, ...). A worker that stalls on sources
@@ -406,6 +407,15 @@ func Instrument(srcDir, outDir, keyDir string) (*Result, error) {
 		}
 		ps = append(ps, parsed{fn, src, f, uses})
 	}
+	// Functions whose number of calls depends on an order the Go runtime randomises or on the
+	// order of a sort's input (sort comparators, and whatever runs inside a loop over a map) get no
+	// function-entry site: the step count of a run, which the schedule is expressed in, must be a
+	// function of the tape alone (two processes replaying one tape must count the same steps).
+	var fs []*ast.File
+	for _, p := range ps {
+		fs = append(fs, p.f)
+	}
+	noEntry := orderDependent(fs)
 	for _, p := range ps {
 		base := filepath.Base(p.fn)
 		src := p.src
@@ -534,7 +544,10 @@ func Instrument(srcDir, outDir, keyDir string) (*Result, error) {
 					fname = id.Name + "." + fname
 				}
 			}
-			if fd.Name.Name != "init" && !isLeaf(fd.Body) {
+			if noEntry[fd.Name.Name] {
+				res.NoEntry++
+			}
+			if fd.Name.Name != "init" && !isLeaf(fd.Body) && !noEntry[fd.Name.Name] {
 				cls := 2
 				if p.sync {
 					cls = 1
@@ -600,4 +613,169 @@ func Instrument(srcDir, outDir, keyDir string) (*Result, error) {
 		return nil, err
 	}
 	return res, nil
+}
+
+// orderDependent returns the names (bare, package wide) of the functions that are called, directly
+// or through one further call, from a sort comparator (a method called Less/Swap/Len, a function
+// literal handed to package sort or slices: the number of comparisons depends on the order of the
+// input, which in this package can come from a map) or from the body of a range loop over a map
+// that can leave the loop early (how many entries it visits depends on the iteration order).
+func orderDependent(files []*ast.File) map[string]bool {
+	callees := func(n ast.Node, into map[string]bool) {
+		ast.Inspect(n, func(m ast.Node) bool {
+			if ce, ok := m.(*ast.CallExpr); ok {
+				switch f := ce.Fun.(type) {
+				case *ast.Ident:
+					into[f.Name] = true
+				case *ast.SelectorExpr:
+					into[f.Sel.Name] = true
+				}
+			}
+			return true
+		})
+	}
+	// names declared with a map type: struct fields, and variables made with make(map...) / map literals
+	mapNames, notMap := map[string]bool{}, map[string]bool{}
+	isMapExpr := func(e ast.Expr) bool {
+		switch x := e.(type) {
+		case *ast.CompositeLit:
+			_, ok := x.Type.(*ast.MapType)
+			return ok
+		case *ast.CallExpr:
+			if id, ok := x.Fun.(*ast.Ident); ok && id.Name == "make" && len(x.Args) > 0 {
+				_, ok := x.Args[0].(*ast.MapType)
+				return ok
+			}
+		}
+		return false
+	}
+	for _, f := range files {
+		ast.Inspect(f, func(m ast.Node) bool {
+			switch x := m.(type) {
+			case *ast.Field:
+				_, isMap := x.Type.(*ast.MapType)
+				for _, n := range x.Names {
+					if isMap {
+						mapNames[n.Name] = true
+					} else {
+						notMap[n.Name] = true // the same name is a slice elsewhere: cannot tell by name
+					}
+				}
+			case *ast.ValueSpec:
+				if _, ok := x.Type.(*ast.MapType); ok {
+					for _, n := range x.Names {
+						mapNames[n.Name] = true
+					}
+				}
+				for i, v := range x.Values {
+					if i < len(x.Names) && isMapExpr(v) {
+						mapNames[x.Names[i].Name] = true
+					}
+				}
+			case *ast.AssignStmt:
+				for i, v := range x.Rhs {
+					if i < len(x.Lhs) {
+						if id, ok := x.Lhs[i].(*ast.Ident); ok && isMapExpr(v) {
+							mapNames[id.Name] = true
+						}
+					}
+				}
+			}
+			return true
+		})
+	}
+	calls := map[string]map[string]bool{}
+	seeds := map[string]bool{}
+	for _, f := range files {
+		for _, d := range f.Decls {
+			fd, ok := d.(*ast.FuncDecl)
+			if !ok || fd.Body == nil {
+				continue
+			}
+			c := calls[fd.Name.Name]
+			if c == nil {
+				c = map[string]bool{}
+				calls[fd.Name.Name] = c
+			}
+			callees(fd.Body, c)
+			switch fd.Name.Name {
+			case "Less", "less", "Swap", "Len":
+				if fd.Recv != nil {
+					seeds[fd.Name.Name] = true
+				}
+			}
+			ast.Inspect(fd.Body, func(m ast.Node) bool {
+				switch x := m.(type) {
+				case *ast.CallExpr:
+					if se, ok := x.Fun.(*ast.SelectorExpr); ok {
+						if id, ok := se.X.(*ast.Ident); ok && (id.Name == "sort" || id.Name == "slices") && !strings.Contains(se.Sel.Name, "Search") {
+							// (a comparator literal counts through the Less methods it calls; what else it
+							// calls - orientation predicates when sorting points by angle - sorts input
+							// whose order does not come from a map, and stays instrumented)
+							for _, a := range x.Args {
+								if fl, ok := a.(*ast.FuncLit); ok {
+									c := map[string]bool{}
+									callees(fl.Body, c)
+									for _, n := range []string{"Less", "less"} {
+										if c[n] {
+											seeds[n] = true
+										}
+									}
+								}
+							}
+						}
+					}
+				case *ast.RangeStmt:
+					name := ""
+					switch r := x.X.(type) {
+					case *ast.Ident:
+						name = r.Name
+					case *ast.SelectorExpr:
+						name = r.Sel.Name
+					}
+					if mapNames[name] && !notMap[name] && exitsEarly(x.Body) {
+						callees(x.Body, seeds)
+					}
+				}
+				return true
+			})
+		}
+	}
+	out := map[string]bool{}
+	for k := range seeds {
+		out[k] = true
+	}
+	for depth := 0; depth < 1; depth++ {
+		var add []string
+		for k := range out {
+			for c := range calls[k] {
+				if !out[c] {
+					add = append(add, c)
+				}
+			}
+		}
+		for _, c := range add {
+			out[c] = true
+		}
+	}
+	return out
+}
+
+// exitsEarly: the loop body can leave the loop (break, return, goto) before all entries are seen.
+func exitsEarly(b *ast.BlockStmt) bool {
+	found := false
+	ast.Inspect(b, func(m ast.Node) bool {
+		switch x := m.(type) {
+		case *ast.FuncLit:
+			return false
+		case *ast.ReturnStmt:
+			found = true
+		case *ast.BranchStmt:
+			if x.Tok == token.BREAK || x.Tok == token.GOTO {
+				found = true
+			}
+		}
+		return !found
+	})
+	return found
 }
